@@ -51,6 +51,10 @@ def run(ctx):
         # as aliases are not resolved (non-vacuity)
         c01.nonvacuous(ctx, module, [("NoUnalias", "spell", inv)], cfgfn)
         scs, r = progcheck.tlc_scenarios(ctx, module, cfgfn("spell"), "c13_%s" % module.lower(), coverage=True)
+        if module in ("Immutable", "Constructor"):
+            # two functions of one package declare the same local alias name for different types
+            s2, _r2 = progcheck.tlc_scenarios(ctx, module, cfgfn("localalias"), "c13_%s_local" % module.lower())
+            scs += s2
         total += len(scs)
         rep = progcheck.Replay(ctx, cats)
         items = []
